@@ -146,6 +146,21 @@ func Main(prop string) {
 			})
 		}
 	})
+	// the empty paragraph (no rune, no run) under every configuration
+	for v := 0; v < 2*3*3*2*2*2; v++ {
+		k := v
+		rtl, k := k%2 == 1, k/2
+		pol, k := k%3, k/3
+		tr, k := k%3, k/3
+		cont, k := k%2 == 1, k/2
+		iter, k := k%2 == 1, k/2
+		c := &Case{ParaRTL: rtl, Policy: pol, TruncateAfter: tr, TextContinues: cont, Iterative: iter, Widths: []int{[]int{0, 50}[k%2]}, Origin: "synthetic-empty-paragraph"}
+		if tr > 0 {
+			c.TruncGlyphs, c.TruncAdv = 1, 320
+		}
+		exh.Add(1)
+		guarded(0, c)
+	}
 	run.Extra("exhaustive_small_scope_cases", exh.Load())
 	run.Extra("exhaustive_small_scope_texts", len(texts))
 
